@@ -9,10 +9,12 @@ RULE = ("PE: generated images signed with relic's own pe-coff signer (P-256 / RS
         "positions are mutated one byte at a time and the real verifier (integrity on) is run on each mutant; the model predicts "
         "pass/fail from `locate` and from equality of the hashed stream; mutations inside the PKCS#7 blob are left to the code. "
         "Non-trivial = distinct signed image.")
-install(globals(), "C02", ["pe", "e2e", "cms", "cab", "ps", "jar", "xsig", "apkv", "deb", "appx", "macho", "vsix", "xap", "msisign", "dmg", "cosign"])
+install(globals(), "C02", ["pe", "e2e", "cms", "cab", "ps", "jar", "xsig", "apkv", "deb", "appx", "macho", "vsix", "xap", "msisign", "dmg", "cosign", "appxv"])
 UNPROVED += ['Relic.Props.C02.dmg_every_byte_protected_full (false: blank trailer ranges, SignatureLength, bytes between signature and trailer reach no hash: dmg_blank_unprotected, dmg_gap_unprotected; proved: dmg_trailer_protected, dmg_data_protected, forHashing_eq_iff)']
 import cms as _cms  # container layer: Relic.Props.C02.cms_accept_implies and corollaries (lean/Relic/Props/C02_Cms.lean)
 RULE += " || " + _cms.RULE
 TIE_THEOREM += "; Relic.Props.C02.cms_accept_implies (Relic.Model.Cms vs pkcs7.SignedData.Verify on semantically mutated SignedData values)"
 UNPROVED += ['Relic.Props.C02.cosign_payload_injective_full (the payload determines what the caller passed): false, witnesses cosign_payload_injective_full_false, cosign_creator_overridden, cosign_text_collisions, cosign_number_collision; proved: cosign_payload_injective_partial / cosign_payload_injective_on_parsed (digest string and canonical optional map are determined)', 'Relic.Props.C02.cat_every_byte_protected_full: false by design of PKCS#7 and of relic\'s lenient reader (cat_inner_header_unprotected, cat_wrapper_unchecked, cat_contenttype_unprotected, cat_trailing_zeros_accepted); proved: cat_content_change_rejected for the content octets']
 import cosign as _thin; RULE += " || " + _thin.RULE
+import appxv as _appxv
+UNPROVED = list(UNPROVED) + _appxv.UNPROVED_C02
